@@ -509,20 +509,21 @@ class Core(composites.Composite):
             if paramDef.assigned & parameters.SINCE_ANYTHING:
                 paramDef.assigned = parameters.SINCE_ANYTHING
 
-        # could speed up output by passing format args as an arg and only process if verb good.
-        runLog.debug("Adding   {0} to {1}".format(a, self))
-        composites.Composite.add(self, a)
-        aName = a.getName()
-
         spatialLocator = spatialLocator or a.spatialLocator
 
+        # refuse before anything is changed, so that a refused add leaves the core as it was
         if spatialLocator is not None and spatialLocator in self.childrenByLocator:
             raise ValueError(
                 "Cannot add {} because location {} is already filled by {}."
                 "".format(
-                    aName, a.spatialLocator, self.childrenByLocator[a.spatialLocator]
+                    a.getName(), spatialLocator, self.childrenByLocator[spatialLocator]
                 )
             )
+
+        # could speed up output by passing format args as an arg and only process if verb good.
+        runLog.debug("Adding   {0} to {1}".format(a, self))
+        composites.Composite.add(self, a)
+        aName = a.getName()
 
         if spatialLocator is not None:
             # transfer spatialLocator to Core one
